@@ -9,7 +9,8 @@ from common import *
 
 CTYPES = [b"application/octet-stream", b"text/plain", b"image/png", b"text/csv; charset=utf-8", b"application/x-custom+json",
           b"text/plain; charset=utf-8; format=flowed; delsp=yes", b"text/html; charset=utf-8; name=\"page.html\"", b"text/plain; charset=utf-8", b"text/plain; format=flowed; charset=utf-8"]
-NAMES = [b"a.txt", b"a b.txt", "résumé.pdf".encode(), b"x" * 70 + b".bin", b'q"uote.txt', b"semi;colon.txt", "文件.txt".encode() * 6]
+NAMES = [b"a.txt", b"a b.txt", "résumé.pdf".encode(), b"x" * 70 + b".bin", b'q"uote.txt', b"semi;colon.txt", "文件.txt".encode() * 6,
+         b"Invoice 01/2024.pdf", b"dir/sub/a.txt", b"C:\\docs\\a.doc", b"/etc/passwd", b"a/", b"..\\x"]
 PROTOS = [(b"application/pgp-signature", b"pgp-sha256"), (b"application/pkcs7-signature", b"sha-256"), (b"application/pgp-encrypted", b"x")]
 # parameter values are case-sensitive text of the caller: mixed case must come out as given, with generated and with custom boundaries
 PROTOS_MIXED = [(b"application/PGP-Signature", b"PGP-SHA256"), (b"Application/X-Sig", b"SHA-256"), (b"application/PGP-Encrypted", b"x")]
@@ -162,6 +163,9 @@ def expected_fields(d):
     return ["content-id", "content-disposition", "content-type", "content-transfer-encoding"]
 
 
+DISP_REQS = []
+
+
 def judge(d, t, bounds, top, path="/"):
     """compare the tree read back by the RFC reader with what was asked for; returns list of problems.
     The decoded leaf contents are checked afterwards in one batch (returns requests)."""
@@ -180,6 +184,8 @@ def judge(d, t, bounds, top, path="/"):
             bad.append("%s: Content-Type read back as %r, expected %r" % (path, fv.get("content-type"), ct))
         if d["kind"] == "inline" and fv.get("content-id") != b"<" + d["a1"] + b">":
             bad.append("%s: Content-ID %r" % (path, fv.get("content-id")))
+        if d["kind"] == "attach":
+            DISP_REQS.append((path, fv.get("content-disposition", b""), d["a1"]))
         body = t["body"]
         if top:
             if not body.endswith(b"\r\n"):
@@ -306,6 +312,8 @@ def run(ctx):
         parse_lines.append("mime.parse\t8\t" + f[1]); parse_idx.append(i)
     parsed = run_model(parse_lines)
     dec_reqs = []
+    del DISP_REQS[:]
+    disp_all = []
     for i, p in zip(parse_idx, parsed):
         d = trees[i]
         octets = unhx(impl[i].split("\t")[1])
@@ -319,6 +327,7 @@ def run(ctx):
             obad.append((i, b))
         for (path, cte, body, want, leaf) in reqs:
             dec_reqs.append((i, path, cte, body, want))
+        disp_all += [(i,) + x for x in DISP_REQS]; del DISP_REQS[:]
     # decode every leaf with the RFC 2045 decoders
     lines = []
     for (i, path, cte, body, want) in dec_reqs:
@@ -338,6 +347,11 @@ def run(ctx):
             got = body
         if got != want:
             obad.append((i, "%s: leaf content decodes (%s) to %r..., built from %r..." % (path, c, (got or b"")[:40], want[:40])))
+    # every attachment's own Content-Disposition: the file name it was built with, whatever characters it holds (path separators included)
+    for (i, path, raw, want), r in zip(disp_all, run_model(["spec.decode_disposition\t" + hx(raw) for (_, _, raw, _) in disp_all])):
+        if r != "some\t%s\t%s" % (hx(b"attachment"), hx(want)):
+            obad.append((i, "%s: the attachment built with the file name %r carries the disposition %r (read back: %s)" % (path, want, raw[:120], r[:100])))
+    ctx.cov["oracle"]["attachment_file_names_read_back"] = {"attachments": len(disp_all)}
     ctx.cov["oracle"]["formatting_depends_on_current_state_only"] = {"result": maf[:40]}
     if maf != "ok":
         ctx.violation({"kind": "oracle", "what": "headers changed after a first formatting: " + (unhx(maf.split("\t")[1]).decode("utf-8", "replace") if maf.startswith("bad\t") else maf)[:600]})
